@@ -85,32 +85,6 @@ theorem sub_isSub (ht : TextOK s) {sb : Mod} (h : sb ∈ s.subs) : sb.isSub = tr
   | none => rw [ho] at hb; cases hb
   | some _ => rfl
 
-/-- Where the whole module continues from the owner: the submodules, in include order. -/
-theorem next_owner (ht : TextOK s) (hr : RegsOK s R R') (hl : LinkOK s R L L') :
-    next R' L' s.owner = s.subs := by
-  unfold next
-  rw [part_isModuleStmt ht (owner_part s), part_linked hr hl (owner_part s), owner_isSub ht]
-  simp only [if_true, Bool.false_eq_true, if_false, List.append_nil]
-  exact filterMap_of_map_some _ _ _ hr.owner_includes
-
-/-- Where the whole module continues from a submodule: the owner. -/
-theorem next_sub (ht : TextOK s) (hr : RegsOK s R R') {sb : Mod} (h : sb ∈ s.subs) :
-    next R' L' sb = [s.owner] := by
-  unfold next Mod.includes
-  rw [part_isModuleStmt ht (sub_part h), sub_isSub ht h, ht.sub_belongs sb h, hr.sub_no_include sb h,
-    Option.bind_some, getModule_m hr]
-  simp
-
-theorem next_part (ht : TextOK s) (hr : RegsOK s R R') (hl : LinkOK s R L L') {P : Mod} (hP : P ∈ s.parts) :
-    ∀ t ∈ next R' L' P, t ∈ s.parts := by
-  intro t htn
-  rcases part_cases hP with hP' | hP'
-  · rw [hP', next_owner ht hr hl] at htn
-    exact sub_part htn
-  · rw [next_sub ht hr hP'] at htn
-    rw [List.mem_singleton.1 htn]
-    exact owner_part s
-
 /-! ## 3. the search order -/
 
 /-- Marks are justified, list form: a part whose name is marked after the visits of `ts` was marked
@@ -139,23 +113,6 @@ theorem visitList_just (ht : TextOK s) (hr : RegsOK s R R') (V : Mod → List St
             exact Or.inr (List.mem_append_left _ (hhead _ _))
         · exact Or.inr (List.mem_append_left _ h2)
       · exact Or.inr (List.mem_append_right _ h1)
-
-/-- **Marks are justified**: a part whose name is marked after a visit from a part was marked
-before or is in the output of the visit (whatever the depth bound). -/
-theorem visit_just (ht : TextOK s) (hr : RegsOK s R R') (hl : LinkOK s R L L') :
-    ∀ (d : Nat) (P : Mod), P ∈ s.parts → ∀ (seen : List String), ∀ x ∈ s.parts,
-      x.name ∈ (visit R' L' d P seen).2 → x.name ∈ seen ∨ x ∈ (visit R' L' d P seen).1
-  | 0, P, _, seen, x, _, h => by
-    simp only [visit] at h
-    exact Or.inl h
-  | d + 1, P, hP, seen, x, hx, h => by
-    rw [visit_succ] at h ⊢
-    simp only at h ⊢
-    rcases visitList_just ht hr (visit R' L' d) (visit_head R' L' d)
-        (fun t ht' seen' => visit_just ht hr hl d t ht' seen') (next R' L' P) seen
-        (next_part ht hr hl hP) x hx h with h1 | h1
-    · exact Or.inl h1
-    · exact Or.inr (List.mem_cons_of_mem _ h1)
 
 /-- Every listed part whose name is not yet marked is in the output of `visitList`: it is visited
 when its turn comes, or it was marked in between — by a visit that listed it. -/
@@ -188,40 +145,6 @@ theorem visitList_complete (ht : TextOK s) (hr : RegsOK s R R') (V : Mod → Lis
               exact List.mem_append_left _ (hhead _ _)
           · exact List.mem_append_left _ h1
         · exact List.mem_append_right _ (visitList_complete ht hr V hhead hV ts _ hts' t h' hin)
-
-/-- The search order from the owner with marks `seen`, depth bound at least one: the owner and every
-submodule whose name is not marked. -/
-theorem visit_owner_complete (ht : TextOK s) (hr : RegsOK s R R') (hl : LinkOK s R L L') (d : Nat)
-    (seen : List String) {Q : Mod} (hQ : Q ∈ s.parts) (hns : Q ∈ s.subs → Q.name ∉ seen) :
-    Q ∈ (visit R' L' (d + 1) s.owner seen).1 := by
-  rw [visit_succ, next_owner ht hr hl]
-  simp only
-  rcases part_cases hQ with e | hQ'
-  · rw [e]
-    exact List.mem_cons_self ..
-  · refine List.mem_cons_of_mem _ ?_
-    exact visitList_complete ht hr (visit R' L' d) (visit_head R' L' d)
-      (fun t ht' seen' => visit_just ht hr hl d t ht' seen') s.subs seen (fun t h => sub_part h) Q hQ' (hns hQ')
-
-/-- **Completeness of the search order**: every part is in the search order of every part. -/
-theorem searchOrder_complete (ht : TextOK s) (hr : RegsOK s R R') (hl : LinkOK s R L L') {P Q : Mod}
-    (hP : P ∈ s.parts) (hQ : Q ∈ s.parts) : Q ∈ searchOrder R' L' P := by
-  unfold searchOrder
-  rcases part_cases hP with e | hP'
-  · rw [e]
-    exact visit_owner_complete ht hr hl _ [] hQ (fun _ h => by cases h)
-  · have hpos : 0 < R'.mods.length := List.length_pos_of_mem (IncludeLink.owner_mem hr)
-    obtain ⟨n, hn⟩ : ∃ n, R'.mods.length = n + 1 := ⟨R'.mods.length - 1, by omega⟩
-    rw [hn, visit_succ, next_sub ht hr hP', visitList_cons]
-    have hc : ¬ (([] : List String).contains s.owner.name = true) := by simp
-    rw [if_neg hc]
-    simp only
-    refine List.mem_cons_of_mem _ (List.mem_append_left _ ?_)
-    refine visit_owner_complete ht hr hl n _ hQ ?_
-    intro hQ' hmem
-    simp only [List.nil_append, List.mem_singleton] at hmem
-    rw [owner_name ht] at hmem
-    exact hr.sub_name_ne Q hQ' hmem
 
 /-! ## 4. what is found -/
 
@@ -257,23 +180,5 @@ theorem found_of_mem (ht : TextOK s) (hnd : ((s.m.stmt.all "grouping").map (·.a
 end parts
 
 /-! ## 5. the visibility condition -/
-
-/-- **Visibility follows from distinct grouping names.**  When the top-level grouping names of the
-unsplit module are pairwise distinct, every part of a one-level split sees every top-level grouping
-of `m` — as the statement `m` declares under that name, at the top level of a part. -/
-theorem visible_of_nodup (s : Split) (R R' : Registry) (L L' : List Nat) (ht : TextOK s) (hr : RegsOK s R R')
-    (hl : LinkOK s R L L') (hnd : ((s.m.stmt.all "grouping").map (·.arg)).Nodup) : Visible s R' L' := by
-  intro P hP g hg
-  have hdm : declares s.m.stmt g.arg = some g := by
-    unfold declares
-    exact IncludeLink.find?_key_of_nodup (fun y : Stmt => y.arg) hnd hg
-  rw [hdm, Option.getD_some, bindTop_eq_found]
-  obtain ⟨Q₀, hQ₀, hgQ⟩ : ∃ Q₀ ∈ s.parts, g ∈ Q₀.stmt.all "grouping" := by
-    have h1 := (ht.body "grouping" (by decide)).mem_iff.1 hg
-    obtain ⟨Q, hQ, h⟩ := List.mem_flatMap.1 h1
-    exact ⟨Q, hQ, h⟩
-  have hsub : ∀ x ∈ searchOrder R' L' P, x ∈ s.parts :=
-    fun x hx => reach_part ht hr hP (visit_reach R' L' _ P [] x hx)
-  exact found_of_mem ht hnd hg hgQ _ hsub (searchOrder_complete ht hr hl hP hQ₀)
 
 end Goyang.Lemmas.IncludeVisible
